@@ -140,7 +140,8 @@ class AmpExecutor(readfile.ReadFileExecutor):
     # ---- local helpers executed in place; a helper the model breaks on stays an unknown call
     def call(self, st, f, args, kwargs, node):
         if isinstance(f, VFunc) and f.how == "repo" and not self.inline_calls and self.reg.get(f"{f.a}::{f.b}") is None and self.local_helper(f):
-            if self.helper_arg_sorts is not None and not any(isinstance(a, VExt) and a.sort in self.helper_arg_sorts for a in list(args) + list((kwargs or {}).values())):
+            if self.helper_arg_sorts is not None and not any((isinstance(a, VExt) and a.sort in self.helper_arg_sorts) or isinstance(a, VInt)
+                                                             for a in list(args) + list((kwargs or {}).values())):      # the stream, or a size computed from it
                 return self.havoc_call(st, f"repo:{f.b}", args, node)
             trial = st.fork()
             n_sink = len(self.sinks[-1])
